@@ -1146,7 +1146,9 @@ class Converter:
             # Ideally, live_out should never be None here. But handle this conditionally
             # due to some existing usage.
             live_def_set = live_out.intersection(live_def_set)
-        live_defs = list(live_def_set)
+        # Sorted: the order of a set depends on the hash seed, and it decides the order of the
+        # If outputs and the generated names.
+        live_defs = sorted(live_def_set)
         test = self._translate_expr(stmt.test, "cond")
         lineno = self._source_of(stmt).lineno
         then_graph = self._translate_block(stmt.body, f"thenGraph_{lineno}", live_defs)
@@ -1234,9 +1236,10 @@ class Converter:
         vars_def_in_loop = self.analyzer.assigned_vars(loop_stmt.body)
         live_out = self.analyzer.live_out(loop_stmt)
         assert live_out is not None, "live_out cannot be None here."
-        loop_state_vars = vars_def_in_loop.intersection(exposed_uses | live_out)
+        # Sorted: see _translate_if_stmt (deterministic order of loop state variables).
+        loop_state_vars = sorted(vars_def_in_loop.intersection(exposed_uses | live_out))
         scan_outputs = set()  # TODO
-        outputs = list(loop_state_vars | scan_outputs)
+        outputs = list(loop_state_vars) + sorted(scan_outputs)
 
         # loop-condition:
         # o_loop_condition = self._emit_const(True, "true", self._source_of(loop_stmt))
